@@ -296,11 +296,11 @@ pub fn run_case(case: &mut Case) {
         lv.iter().filter(|l| !l.2).collect();
 
     let renders: Vec<(&str, Result<String, crate::outcome::Outcome>)> = vec![
-        ("markdown", guarded(0, || parser.render_markdown("app")).0),
-        ("html", guarded(0, || parser.render_html("app")).0),
+        ("markdown", guarded(RENDER_FUEL, || parser.render_markdown("app")).0),
+        ("html", guarded(RENDER_FUEL, || parser.render_html("app")).0),
         (
             "manpage",
-            guarded(0, || {
+            guarded(RENDER_FUEL, || {
                 parser.render_manpage(
                     "app",
                     bpaf::doc::Section::General,
